@@ -123,6 +123,13 @@ def def_pair(edit):
     base = evolib.model(rec, "Data")
     if edit == "add_computed_field":
         return {"m.yml": base}, {"m.yml": base.replace(rec, rec + "  computedFields:\n    twice: a * 2\n")}
+    # computed fields that mention named types the protocol does not otherwise use: a cast to an alias, a type pattern
+    CF = {"add_computed_field_cast_to_alias": "    inMeters: a as Meters\n",
+          "add_computed_field_switch_pattern": "    size:\n      !switch uu:\n        Meters m: 1\n        string s: 2\n"}
+    if edit in CF:
+        r2 = rec + "    uu: [double, string]\n"
+        b0 = "Meters: double\n" + evolib.model(r2, "Data")
+        return {"m.yml": b0}, {"m.yml": b0.replace(r2, r2 + "  computedFields:\n" + CF[edit])}
     if edit == "change_computed_field":
         b0 = base.replace(rec, rec + "  computedFields:\n    twice: a * 2\n")
         return {"m.yml": b0}, {"m.yml": b0.replace("twice: a * 2", "twice: a + a + 1")}
